@@ -466,6 +466,51 @@ fn exh_case(idx: u64, ctx: &mut Ctx) -> CaseResult {
     scaling_case(idx as usize, ctx)
 }
 
+fn count_leaves(i: &Item) -> usize {
+    match i {
+        Item::Array(a) => a.iter().map(count_leaves).sum(),
+        Item::Map(m) => m.iter().map(|(_, v)| count_leaves(v)).sum(),
+        Item::Tag(_, x) => count_leaves(x),
+        Item::Wrapped(w) => count_leaves(&w.inner),
+        _ => 1,
+    }
+}
+
+/// Replace the `at`-th leaf (map values, array elements; keys are left alone) by a related value of
+/// another kind or content.
+fn mutate_leaf(i: &mut Item, at: &mut usize, how: usize) -> bool {
+    match i {
+        Item::Array(a) => a.iter_mut().any(|x| mutate_leaf(x, at, how)),
+        Item::Map(m) => m.iter_mut().any(|(_, v)| mutate_leaf(v, at, how)),
+        Item::Tag(_, x) => mutate_leaf(x, at, how),
+        Item::Wrapped(w) => mutate_leaf(&mut w.inner, at, how),
+        leaf => {
+            if *at > 0 {
+                *at -= 1;
+                return false;
+            }
+            *leaf = match (&*leaf, how) {
+                (Item::Int(v), 0) => Item::Float(*v as f64),
+                (Item::Int(v), 1) => Item::Float(*v as f64 + 0.5),
+                (Item::Int(_), 2) => Item::Float(f64::NAN),
+                (Item::Int(v), _) => Item::Int(if *v >= crate::cbor::INT_MAX { *v - 1 } else { *v + 1 }),
+                (Item::Float(f), 0) | (Item::Float(f), 1) if f.is_finite() && f.abs() < 1e15 => Item::Int(*f as i128),
+                (Item::Float(_), 2) => Item::Float(f64::INFINITY),
+                (Item::Float(f), _) => Item::Float(-*f),
+                (Item::Bytes(b), _) => {
+                    let mut b = b.clone();
+                    b.push(how as u8);
+                    Item::Bytes(b)
+                }
+                (Item::Text(t), _) => Item::Text(format!("{}{}", t, how)),
+                (Item::Bool(b), _) => Item::Bool(!*b),
+                _ => Item::Int(how as i128),
+            };
+            true
+        }
+    }
+}
+
 /// Number of non-empty arrays in an item (byte-string-wrapped content excluded).
 fn count_arrays(i: &Item) -> usize {
     match i {
@@ -530,6 +575,24 @@ fn case(g: &mut Gen, ctx: &mut Ctx) -> CaseResult {
                     let which = g.u64();
                     dup_in_array(&mut item, &mut at, which);
                     ctx.class("mutation:array-element-repeated");
+                }
+            }
+            // a second value of the same type differing in one leaf (integer <-> float of the same or a
+            // nearby value, NaN, other bytes / text): the two decoded values are compared with each other
+            if g.ratio(1, 4) {
+                let mut other = item.clone();
+                let n = count_leaves(&other);
+                if n > 0 {
+                    let mut at = g.below(n);
+                    let how = g.below(4);
+                    mutate_leaf(&mut other, &mut at, how);
+                    let (b1, b2) = (encode(&item), encode(&other));
+                    ctx.class("compare-two-values");
+                    match crate::run::catch(|| (t.compare)(&b1, &b2)) {
+                        Ok(Ok(_)) => {}
+                        Ok(Err(m)) => fail!("{}: {}", t.name, m),
+                        Err(p) => fail!("{}: panic while comparing the values decoded from {} and {}: {}", t.name, hex_trunc(&b1, 60), hex_trunc(&b2, 60), p),
+                    }
                 }
             }
             // deterministic style half of the time (copies of an item then have identical bytes)
